@@ -199,7 +199,14 @@ static std::string run_case(const J &c, std::string &sig) {
     std::thread aux;
     if (c["keygen_thread"].i()) aux = std::thread([&]() { // key generation / encryption on its own data: the only user of the global generator
         LweParams *P = new_LweParams(300, 1e-4, 0.1); LweKey *K = new_LweKey(P); LweSample *s = new_LweSample(P);
-        while (!stop_aux.load()) { lweKeyGen(K); for (int q = 0; q < 20; q++) lweSymEncrypt(s, q, 1e-4, K); }
+        // ... and, every other round, a complete (small) gate-bootstrapping key set: ring key, bootstrapping key through this thread's own FFT processor, key-switching key
+        LweParams *lp = new_LweParams(6, 1e-9, 0.01); TLweParams *tp = new_TLweParams(N, 1, 1e-9, 0.01); TGswParams *gp = new_TGswParams(2, 8, tp);
+        TFheGateBootstrappingParameterSet *gps = new TFheGateBootstrappingParameterSet(2, 1, lp, gp);
+        for (int round = 0; !stop_aux.load(); round++) {
+            lweKeyGen(K); for (int q = 0; q < 20; q++) lweSymEncrypt(s, q, 1e-4, K);
+            if (round & 1) { TFheGateBootstrappingSecretKeySet *ks2 = new_random_gate_bootstrapping_secret_keyset(gps); delete_gate_bootstrapping_secret_keyset(ks2); }
+        }
+        delete_gate_bootstrapping_parameters(gps); delete_TGswParams(gp); delete_TLweParams(tp); delete_LweParams(lp);
         delete_LweSample(s); delete_LweKey(K); delete_LweParams(P);
     });
     auto worker = [&](int t) {
